@@ -519,6 +519,8 @@ async fn scenario(seed: u64, trace: Arc<Trace>, yields: bool, run_client: &dyn F
     let mut handles = vec![];
     let mut next_uid = 100;
     OWNED_BACK.lock().unwrap().clear();
+    // the (never polled) ports of the detached remote-id cells: kept for the whole scenario, dropped when it returns
+    let mut kept_ports = vec![];
     for t in 0..nowners {
         let mut mine = vec![];
         for _ in 0..p.range(1, 3) {
@@ -526,7 +528,7 @@ async fn scenario(seed: u64, trace: Arc<Trace>, yields: bool, run_client: &dyn F
             if cfg!(feature = "cluster") && p.chance(1, 4) {
                 let id = ractor::ActorId::Remote { node_id: 3, pid: (seed & 0xfff) * 100 + next_uid };
                 let (cell, ports) = ActorCell::verif_detached::<Dummy>(None, Some(id)).expect("remote cell");
-                std::mem::forget(ports); // keep the ports alive for the scenario (released at process exit)
+                kept_ports.push(ports);
                 mine.push(Owned { pid: pid_of(&cell), cell, live: None, member_of: HashSet::new(), dead: false });
             } else {
                 let spec = Arc::new(ProbeSpec::new(next_uid, None, trace.clone()));
